@@ -217,6 +217,16 @@ class _FPHelper(loopcut.Helper):
         return len(it) - 1
 
 
+class _FPHelperTwoRounds(_FPHelper):
+    """two consecutive iterations from the havocked loop head: what iteration i kept is read by iteration i + 1"""
+
+    def one(self, it):
+        i = S.var("iter_k")
+        self.k.assume(i >= 0)
+        self.k.assume(i <= len(it) - 2)
+        return (i, i + 1)
+
+
 def _criterion(x_new, x, atol, rtol, n):
     with K.npshim.active(True):
         scale = atol + dsv.np.maximum(dsv.np.abs(x), dsv.np.abs(x_new)) * rtol
@@ -226,7 +236,10 @@ def _criterion(x_new, x, atol, rtol, n):
 def _fixed_point(which, mode, n, purity="pure"):
     """purity: how the fixed-point map treats its argument - "pure" (returns a new array), "in-place" (overwrites the
     array it was given and returns that very array), "partly-in-place" (overwrites a view of it and returns a new array
-    built from the view: the pattern of DualStormerVerlet._step's own map).  The helpers must meet their contract for all."""
+    built from the view: the pattern of DualStormerVerlet._step's own map), "own-buffer" (does not touch its argument but
+    writes every result into one array of its own and returns that: `np.dot(A, x, out=buf); return buf` - a helper that
+    keeps a reference to a result instead of a copy sees its previous iterate change under it; this needs two consecutive
+    rounds of the loop to show).  The helpers must meet their contract for all."""
 
     def c(k):
         if not k.sym:
@@ -236,6 +249,7 @@ def _fixed_point(which, mode, n, purity="pure"):
         x0 = S.symarray("x0", n)
         G = _uf_fun("G", n)
         calls = []
+        buf = np.empty(n, dtype=object)
 
         def fun(x):
             before = np.array(x, dtype=object).copy()
@@ -248,12 +262,15 @@ def _fixed_point(which, mode, n, purity="pure"):
                 head = x[:1]
                 head[:] = y[:1]
                 return np.concatenate([head, y[1:]])
+            if purity == "own-buffer":
+                buf[:] = y  # the map keeps one output array and returns it on every call
+                return buf
             return y
 
         atol, rtol = S.var("atol"), S.var("rtol")
         k.assume(atol > 0)
         k.assume(rtol > 0)
-        helper = _FPHelper(mode, k, None)
+        helper = (_FPHelperTwoRounds if purity == "own-buffer" else _FPHelper)(mode, k, None)
         run = loopcut.cut(fn, loop=0)
         raised = None
         try:
@@ -284,6 +301,8 @@ for _which in ("plain", "momentum"):
         for _n in (1, 2):
             contract("C22", f"fixed_point_iteration[{_which},n={_n}]/{_mode}", samples=0, replayable=False, timeout=60, max_paths=300,
                      tiers=("quick", "thorough") if _n == 1 else ("thorough",))(_fixed_point(_which, _mode, _n))
+    if _which == "plain":  # (two rounds of the momentum variant fork beyond what is practical: > 20 min; not registered)
+        contract("C22", "fixed_point_iteration[plain,n=1,map returns its own work array]/two consecutive iterations", samples=0, replayable=False, timeout=60, max_paths=600)(_fixed_point(_which, "iter", 1, "own-buffer"))
     for _purity in ("in-place", "partly-in-place"):
         for _n in (1, 2):
             contract("C22", f"fixed_point_iteration[{_which},n={_n},map updates its argument {_purity}]/iter", samples=0, replayable=False, timeout=60, max_paths=300,
@@ -391,6 +410,47 @@ def c_non_finite(k):
                             except (ValueError, RuntimeError) as e:
                                 ok, how = True, f"raised {type(e).__name__}: {str(e)[:60]}"
                             k.prove(f"fixed_point_iteration[{which}, n={n}]: map value {bad_name} in {comp} from call {start} on => raises", ok, show=how)
+
+
+@contract("C22", "fixed-point helpers/maps that return their own work array (native, both helpers)", samples=0, replayable=False, timeout=30)
+def c_own_buffer_native(k):
+    """the two-round symbolic contract above covers the plain helper; the same question for both helpers on concrete affine
+    contractions whose map writes every result into one array of its own: the returned point is fun(y) for the last
+    evaluation point y (recorded by copy) and the criterion recomputed from those copies is below 1 and is the reported error"""
+    if not k.sym:
+        raise K.Reject("decided by native execution")
+    k.covers(dsv.fixed_point_iteration, dsv.fixed_point_iteration_with_momentum)
+    import contextlib
+    import io
+
+    rng = np.random.default_rng(4)
+    with K.npshim.active(False):
+        for which, fp in (("plain", dsv.fixed_point_iteration), ("momentum", dsv.fixed_point_iteration_with_momentum)):
+            for n in (1, 3, 6):
+                for tol in (1e-6, 1e-10):
+                    Q, _ = np.linalg.qr(rng.normal(size=(n, n)))
+                    A = 0.5 * Q @ np.diag(rng.uniform(0.2, 1.0, n)) @ Q.T  # symmetric, ||A|| <= 0.5
+                    b = rng.normal(size=n)
+                    buf, seen = np.empty(n), []
+
+                    def g(x, A=A, b=b, buf=buf, seen=seen):
+                        seen.append(x.copy())
+                        np.dot(A, x, out=buf)
+                        buf += b
+                        return buf
+
+                    try:
+                        with contextlib.redirect_stdout(io.StringIO()):
+                            x, nit, err = fp(g, 10.0 * rng.normal(size=n), atol=tol, rtol=tol, max_iter=200)
+                        y = seen[-1]
+                        gy = A @ y + b
+                        scale = tol + np.maximum(np.abs(y), np.abs(gy)) * tol
+                        crit = np.linalg.norm((gy - y) / scale) / np.sqrt(n)
+                        ok = bool(np.allclose(x, gy, rtol=0, atol=1e-14) and crit < 1 and abs(err - crit) <= 1e-9 * max(1.0, crit))
+                        how = f"criterion recomputed {crit:.3e}, reported {err:.3e}, |x - g(y)| = {np.max(np.abs(x - gy)):.2e}, {nit} iterations"
+                    except (ValueError, RuntimeError) as e:
+                        ok, how = False, f"raised {type(e).__name__} on a contraction with Lipschitz constant 0.5 and 200 iterations"
+                    k.prove(f"fixed_point_iteration[{which}, n={n}, tol={tol:g}]: own-buffer map, returned point meets the tolerance it reports", ok, show=how)
 
 
 @bounded("C22", "approx_fprime[cs]/accuracy")
